@@ -61,3 +61,33 @@ package kvstore
 //@   ensures result != nil && result != X
 //@   ensures forall k Str :: (k in result) == (k in X) && ((k in X) ==> result[k] == X[k])
 //@   ensures forall k Str :: (k in X) == old(k in X) && X[k] == old(X[k])
+
+// Put / Delete: a successful call has appended exactly one entry whose operation is PUT key value
+// (DEL key), and returns that operation; a failed call has emitted no write event.
+//@ func (*orbitDBKeyValue).Put
+//@   props C06
+//@   flag nilcalls
+//@   requires wf(addr(o.BaseStore)) && o.BaseStore.emitters.evtWrite != nil
+//@   requires statusProgress(o.BaseStore.replicationStatus) <= statusMax(o.BaseStore.replicationStatus)
+//@   ghost L := o.BaseStore.oplog
+//@   ghost K := key
+//@   ensures result1 == nil ==> typeis(result, "*operation.operation") && ref(result) != 0
+//@   ensures result1 == nil ==> ptr(result, "operation.operation").Op == "PUT" && ptr(result, "operation.operation").Key != nil && deref(ptr(result, "operation.operation").Key) == K && ptr(result, "operation.operation").Value == value
+//@   ensures result1 == nil ==> logLen(L) == old(logLen(L)) + 1 && ents(L)[ptr(result, "operation.operation").Entry] && !old(ents(L))[ptr(result, "operation.operation").Entry]
+//@   ensures result1 == nil ==> opKind(ptr(result, "operation.operation").Entry) == "PUT" && opHasKey(ptr(result, "operation.operation").Entry) && opKey(ptr(result, "operation.operation").Entry) == K && opValue(ptr(result, "operation.operation").Entry) == value
+//@   ensures result1 == nil ==> synced(addr(o.BaseStore))
+//@   modifies *
+
+//@ func (*orbitDBKeyValue).Delete
+//@   props C06
+//@   flag nilcalls
+//@   requires wf(addr(o.BaseStore)) && o.BaseStore.emitters.evtWrite != nil
+//@   requires statusProgress(o.BaseStore.replicationStatus) <= statusMax(o.BaseStore.replicationStatus)
+//@   ghost L := o.BaseStore.oplog
+//@   ghost K := key
+//@   ensures result1 == nil ==> typeis(result, "*operation.operation") && ref(result) != 0
+//@   ensures result1 == nil ==> ptr(result, "operation.operation").Op == "DEL" && ptr(result, "operation.operation").Key != nil && deref(ptr(result, "operation.operation").Key) == K
+//@   ensures result1 == nil ==> logLen(L) == old(logLen(L)) + 1 && ents(L)[ptr(result, "operation.operation").Entry] && !old(ents(L))[ptr(result, "operation.operation").Entry]
+//@   ensures result1 == nil ==> opKind(ptr(result, "operation.operation").Entry) == "DEL" && opHasKey(ptr(result, "operation.operation").Entry) && opKey(ptr(result, "operation.operation").Entry) == K
+//@   ensures result1 == nil ==> synced(addr(o.BaseStore))
+//@   modifies *
